@@ -70,7 +70,7 @@ def gen_stmt(rng):
         defs.append((n, d))
         avail = avail + [n]
     shape = rng.choice(["refs", "refs", "self-join", "in-subquery", "nested-fresh", "nested-reuse", "nested-reuse",
-                        "nested-reuse-in", "nested-table-name", "reuse-in-def"])
+                        "nested-reuse-in", "nested-table-name", "reuse-in-def", "sibling-reuse", "sibling-reuse"])
     target = rng.choice(CTES[:k])
     if shape == "refs":
         body = gen_rel(rng, avail, 2, must=target)
@@ -83,6 +83,16 @@ def gen_stmt(rng):
             body = ("win", body, col(0), ref(target))
     elif shape == "in-subquery":
         body = ("win", gen_rel(rng, avail, 1), col(rng.choice([0, 1])), gen_rel(rng, avail, 1, must=target))
+    elif shape == "sibling-reuse":
+        # two SIBLING nested WITH clauses that define the same name differently (a fresh name, an outer CTE's name or a
+        # table's name): each body must see its own definition (found by seeded change seeded/C28)
+        nm = rng.choice([target, (13, "cd"), rng.choice(tabs)])
+        a, b = nested(rng, avail, nm), nested(rng, avail, nm)
+        if rng.random() < 0.6:
+            body = ("wproject", ("wjoin", "JInner", a, b, ("cmp", "CEq", col(rng.choice([0, 1])), col(2 + rng.choice([0, 1])))),
+                    join_cols(rng))
+        else:
+            body = ("win", a, col(rng.choice([0, 1])), b)
     else:
         if shape == "nested-fresh":
             nm = (13, "cd")
